@@ -167,29 +167,32 @@ def patterns : List Tok → Option (List Tok)
   | w :: pipe :: r => if wordLike w then patterns r else none
   | _ => none
 
-/-- `wordIter` and the `{`/`do` choice of `forClause`, after `for`: returns the closing word and the
-    input after `do` / `{`. -/
+/-- `wordIter` after the variable name: `;`, or `in words` with its terminator, or nothing
+    (then `do` must follow). -/
+def forIter : List Tok → Option (List Tok)
+  | semi :: r' => some (skipNL r')
+  | r =>
+    match skipNL r with
+    | kIn :: r'' =>
+      match forWords r'' with
+      | some (semi :: r3) => some (skipNL r3)
+      | some r3 => some (skipNL r3)
+      | none => none
+    | kDo :: r'' => some (kDo :: r'')
+    | _ => none       -- "`for foo` must be followed by `in`, `do`, `;`, or a newline"
+
+/-- The `{`/`do` choice of `forClause`: returns the closing word and the input after the opener. -/
+def forOpen (c : Cfg) : List Tok → Option (Tok × List Tok)
+  | lbrace :: r2 => if c.forBrace then some (rbrace, r2) else none
+  | kDo :: r2 => some (kDone, r2)
+  | _ => none
+
+/-- `forClause` after `for`, up to and including `do` / `{`. -/
 def forHead (c : Cfg) : List Tok → Option (Tok × List Tok)
   | [] => none
   | nm :: r =>
-    if isLitWord nm && (nm != assign || c.forAssign) then
-      let afterIter : Option (List Tok) :=
-        match r with
-        | semi :: r' => some (skipNL r')
-        | _ =>
-          match skipNL r with
-          | kIn :: r'' =>
-            match forWords r'' with
-            | some (semi :: r3) => some (skipNL r3)
-            | some r3 => some (skipNL r3)
-            | none => none
-          | kDo :: r'' => some (kDo :: r'')
-          | _ => none
-      match afterIter with
-      | some (lbrace :: r2) => if c.forBrace then some (rbrace, r2) else none
-      | some (kDo :: r2) => some (kDone, r2)
-      | _ => none
-    else none
+    if isLitWord nm && (nm != assign || c.forAssign) then (forIter r).bind (forOpen c)
+    else none            -- "`for` must be followed by a literal"
 
 /-- `caseClause` up to and including `in`. -/
 def caseHead : List Tok → Option (List Tok)
@@ -507,24 +510,20 @@ def startsCompound : List Tok → Bool
   | t :: _ => isCompoundStart t
   | [] => false
 
-/-- `for name [linebreak in wordlist] sequential_sep? do` as a token list after `for`, with the
-    closing word. -/
+/-- `[linebreak in wordlist] sequential_sep?` after the loop variable; the flag says whether
+    bash's `{` may follow (only after `;` or a word list). -/
+inductive ForIter : List Tok → Bool → Prop
+  | semi {k} : ForIter (semi :: nls k) true
+  | plain {k} : ForIter (nls k) false
+  | inSemi {k ws j} : Words ws → ForIter (nls k ++ kIn :: ws ++ semi :: nls j) true
+  | inNl {k ws j} : Words ws → ForIter (nls k ++ kIn :: ws ++ nl :: nls j) true
+
+/-- `for name … do` / `for name … {` as a token list after `for`, with the closing word. -/
 inductive ForHead (c : Cfg) : List Tok → Tok → Prop
-  | semi {nm k} : isLitWord nm = true → (nm ≠ assign ∨ c.forAssign = true) →
-      ForHead c (nm :: semi :: nls k ++ [kDo]) kDone
-  | plain {nm k} : isLitWord nm = true → (nm ≠ assign ∨ c.forAssign = true) →
-      ForHead c (nm :: nls k ++ [kDo]) kDone
-  | inSemi {nm k ws j} : isLitWord nm = true → (nm ≠ assign ∨ c.forAssign = true) → Words ws →
-      ForHead c (nm :: nls k ++ kIn :: ws ++ semi :: nls j ++ [kDo]) kDone
-  | inNl {nm k ws j} : isLitWord nm = true → (nm ≠ assign ∨ c.forAssign = true) → Words ws →
-      ForHead c (nm :: nls k ++ kIn :: ws ++ nl :: nls j ++ [kDo]) kDone
-  -- bash: `{ … }` instead of `do … done`, only after `;` or the word list
-  | semiB {nm k} : c.forBrace = true → isLitWord nm = true → (nm ≠ assign ∨ c.forAssign = true) →
-      ForHead c (nm :: semi :: nls k ++ [lbrace]) rbrace
-  | inSemiB {nm k ws j} : c.forBrace = true → isLitWord nm = true → (nm ≠ assign ∨ c.forAssign = true) →
-      Words ws → ForHead c (nm :: nls k ++ kIn :: ws ++ semi :: nls j ++ [lbrace]) rbrace
-  | inNlB {nm k ws j} : c.forBrace = true → isLitWord nm = true → (nm ≠ assign ∨ c.forAssign = true) →
-      Words ws → ForHead c (nm :: nls k ++ kIn :: ws ++ nl :: nls j ++ [lbrace]) rbrace
+  | doLoop {nm it b} : isLitWord nm = true → (nm ≠ assign ∨ c.forAssign = true) → ForIter it b →
+      ForHead c (nm :: it ++ [kDo]) kDone
+  | brace {nm it} : c.forBrace = true → isLitWord nm = true → (nm ≠ assign ∨ c.forAssign = true) →
+      ForIter it true → ForHead c (nm :: it ++ [lbrace]) rbrace
 
 inductive NT
   | program
